@@ -291,6 +291,7 @@ func runC11(c *kit.Ctx) {
 	// ---- K4 ---------------------------------------------------------------
 	c.StartRule("K4", "explicit panics on the decode surface cannot be reached by peer data", 4)
 	responseIndicesAreUnique(c)
+	lookupErrorsAreTheKnownOnes(c)
 	for _, f := range surface {
 		kit.Instrs(f, func(in ssa.Instruction) {
 			pn, ok := in.(*ssa.Panic)
